@@ -60,6 +60,12 @@ table in the harness). -/
 def toLowerAscii (s : Str) : Str :=
   s.map fun c => if 'A' ≤ c ∧ c ≤ 'Z' then Char.ofNat (c.toNat + 32) else c
 
+/-- "`k` holds after skipping some prefix that contains no `/`" — the meaning of `*` in a glob
+and of `[^/]*` in a regular expression, with `k` the rest of the match. -/
+def starLoop (k : Str → Bool) : Str → Bool
+  | [] => k []
+  | c :: s => k (c :: s) || (c != '/' && starLoop k s)
+
 theorem splitOn_ne_nil (c : Char) (s : Str) : splitOn c s ≠ [] := by
   induction s with
   | nil => simp [splitOn]
